@@ -56,6 +56,7 @@ RULE = ("one evaluation = one simulated file-system world with one logical "
         "distinct SHA-1 of the full event history")
 EXPECTED_PROBES = ["load.sibling", "load.pickle_after_file_changed",
                    "archive_order.links_first", "archive_order.sorted",
+                   "load.gettz_localtime",
                    "load.gettz_env",
                    "load.gettz_name", "load.gettz_second", "load.gettz_space",
                    "load.gettz_colon", "load.gettz_abs", "load.tzfile_path",
@@ -280,7 +281,8 @@ LOADS = ["gettz_name", "gettz_second", "gettz_space", "gettz_colon",
          "gettz_abs", "tzfile_path", "tzfile_stream", "tzfile_stream_noname",
          "tzfile_stream_chunked", "archive", "archive_link", "archive_hardlink",
          "bundle", "gettz_bundle", "sibling", "sibling", "gettz_env",
-         "gettz_env_colon"]
+         "gettz_env_colon", "gettz_localtime_abs", "gettz_localtime_rel",
+         "gettz_localtime_colon"]
 
 
 def gen_loads(rng, n):
@@ -594,6 +596,18 @@ class Loader(object):
                 return tz.gettz()
             finally:
                 self.world.set_tz(None)
+        if k.startswith("gettz_localtime"):
+            # gettz() with no name and no (or an empty) TZ setting reads the
+            # system's local-time file: TZFILES, absolute or under TZPATHS
+            path = "/sim/etc/localtime" if k.endswith("abs") \
+                else ZW.ZI2 + "/localtime"
+            self.world.fs.add_file(path, self.data)
+            self.world.set_tz(":" if k.endswith("colon") else None)
+            try:
+                return tz.gettz()
+            finally:
+                del self.world.fs.files[path]
+                self.world.set_tz(None)
         if k == "tzfile_path":
             return tz.tzfile(self.p1)
         if k == "tzfile_stream":
@@ -764,6 +778,9 @@ def execute(cls, scenario, ctx):
                             "tzfile_stream_chunked": "tzfile_stream",
                             "archive_hardlink": "archive_link",
                             "gettz_env_colon": "gettz_env",
+                            "gettz_localtime_abs": "gettz_localtime",
+                            "gettz_localtime_rel": "gettz_localtime",
+                            "gettz_localtime_colon": "gettz_localtime",
                             "gettz_bundle": "bundle"}.get(op[0], op[0]))
             except (Deadlock, BudgetExceeded):
                 raise
